@@ -95,6 +95,7 @@ func (h *HooksCaller) runAllHooks() {
 	// select may well pick the notification first - don't call the hooks with the directory of the old store
 	select {
 	case s := <-h.NewStore:
+		verifEvent("hooks.newstore", s)
 		h.store = s
 	default:
 	}
